@@ -6,6 +6,7 @@ import (
 	"fmt"
 	"math/rand"
 	"os"
+	"sync/atomic"
 	"time"
 
 	"github.com/xelaj/mtproto/zverif/ref/mtp"
@@ -117,7 +118,19 @@ func c07case(c *wk.Ctx, idx int, r *rand.Rand, f c07fault) {
 	srv := w.server(refserver.HandlerFunc(func(cn *refserver.Conn, in *mtp.Inner) {}))
 	applied := false
 	var authKeyForHash []byte
+	var honest int32 // set for the retry after the aborted exchange: the server then follows the specification
 	srv.Tamper = func(h *refserver.HSFields) {
+		if atomic.LoadInt32(&honest) == 1 {
+			return
+		}
+		if h.Stage == "dh_gen" && h.AuthKey != nil && idx%2 == 0 {
+			// the liar already holds g^ab: in front of its last reply it pushes service traffic sealed with that
+			// unproven key (a salt announcement, a salt rejection, an update)
+			for _, body := range [][]byte{refserver.NewSessionCreated(1, int64(r.Uint64()), int64(r.Uint64())), refserver.BadServerSalt(4, 1, int64(r.Uint64())), apiUpdateBody(r)} {
+				in := mtp.Inner{Salt: h.Salt, Session: int64(r.Uint64()), MsgID: srv.NextMsgID(1), SeqNo: 1, Body: body}
+				h.RawBefore = append(h.RawBefore, mtp.Seal(h.AuthKey, in, 8, rbytes(r, (16-(32+len(body))%16)%16)))
+			}
+		}
 		switch {
 		case f.Site == "resPQ.nonce" && h.Stage == "resPQ":
 			h.Nonce = mutNonce(r, h.Nonce, h.ServerNonce, f)
@@ -323,6 +336,41 @@ func c07case(c *wk.Ctx, idx int, r *rand.Rand, f c07fault) {
 		}
 		c.Count("followup.encrypted_after_abort", 1)
 		time.Sleep(60 * time.Millisecond)
+	}
+	// the application (or the client's own reconnect) tries again on the same client object, and this time the server
+	// is honest: either that fails, or a complete new exchange takes place — the key of the abandoned one is never used
+	if done && !pan && cerr != nil && idx%3 != 2 {
+		doneBefore := countEv(w, "hs.done")
+		atomic.StoreInt32(&honest, 1)
+		var rerr error
+		var rpan bool
+		var rpm string
+		rdone := withTimeout(45*time.Second, func() {
+			rpan, rpm, _ = wk.Guard(func() {
+				m.Disconnect()
+				rerr = m.CreateConnection()
+			})
+		})
+		c.Count("retry.after_abort", 1)
+		switch {
+		case !rdone:
+			if stalled, dump := isStalled(); stalled {
+				c.Viol("C07", idx, "retry-stall/"+tag, "after the abandoned exchange, Disconnect+CreateConnection on the same client never returns and nothing can move", dump)
+			} else {
+				c.Log.Emit(coreInconclusive("c07: retry did not return within the watchdog for " + tag))
+			}
+			return
+		case rpan:
+			c.Viol("C07", idx, "retry-panic/"+f.Site, rpm, f)
+			return
+		case rerr == nil && countEv(w, "hs.done") == doneBefore:
+			c.Viol("C07", idx, "retry-skipped-key-exchange/"+tag, "after the abandoned exchange, CreateConnection on the same client reports success without a new key exchange: the client goes on with the key the server never proved", f)
+			return
+		case rerr == nil:
+			// a new, consistent exchange: its session may be stored and used — the checks below concern the abandoned one
+			c.Count("retry.new_exchange_completed", 1)
+			return
+		}
 	}
 	// bounded drain, then: nothing persisted, nothing encrypted ever sent
 	time.Sleep(30 * time.Millisecond)
